@@ -236,6 +236,7 @@ func subFilter(out string, seed uint64, tier string, arg string) {
 		allSources = append(allSources, string(s))
 	}
 	blanks := []string{"", " ", "\t", "  ", "\n", " \t "}
+	nrepeat := 0
 	emit := func(o *filterOp) {
 		line := o.line()
 		res := o.run()
@@ -245,6 +246,19 @@ func subFilter(out string, seed uint64, tier string, arg string) {
 		rep.distinctKey(line)
 		rep.count("outcome:" + strings.SplitN(strings.SplitN(res, " ", 2)[0], "|", 2)[0])
 		rep.sample(map[string]string{"op": line[:min(len(line), 300)], "impl": res[:min(len(res), 300)]})
+		// every eighth option set is applied again after the source registry received a new configuration: the answer
+		// (selection, "inherits the configuration") must be the same function of the registry as it is now
+		nrepeat++
+		if nrepeat%8 == 0 {
+			if cfg, err := lint.NewConfigFromString(fmt.Sprintf("[unrelated_%d]\nx = %d\n", nrepeat, nrepeat)); err == nil {
+				o.reg.SetConfiguration(cfg)
+				res2 := o.run()
+				fmt.Fprintln(wo, line)
+				fmt.Fprintln(wi, res2)
+				rep.Evaluations++
+				rep.count("repeat-after-setconfiguration")
+			}
+		}
 	}
 	genOpts := func(reg lint.Registry, spec string, names []string) *filterOp {
 		o := &filterOp{regSpec: spec, reg: reg}
